@@ -18,7 +18,8 @@ FAMILY_VARIANTS = {
     "completion_chain": ALLV + POLV,
     "conflict_flat": ALLV + ["B11+p1", "B11+p2", "B11+p3"],
     "history_always": ALLV + ["B11+p1", "B11+p3"],
-    "kleene_defer": ["B", "B11", "M"],       # Kleene triggers: run-time-speed policies with flat_fold dispatch (C18 quantifier)
+    "kleene_defer": ["B", "B11", "M"],
+    "entry_pt_noqueue": ["B", "BC", "B11"],     # no_message_queue is an option of back / back11       # Kleene triggers: run-time-speed policies with flat_fold dispatch (C18 quantifier)
     "exit_points_plain": ALLV + ["B11", "B11+p1", "B11+p2", "B11+p3", "B+p1", "B+p3", "M+p2", "M+p3"],
     "flags": ALLV + ["B+p3", "M+p3"],
     "fe_player": ["B", "B+feR", "B+feR2", "B+feP", "B+feE", "BC+feE", "M", "M+feR", "M+feP", "M+feE"],
@@ -32,7 +33,7 @@ FAMILY_VARIANTS = {
 # exit-point rows with action+guard): the families it compiles -- "back11 where it accepts the same declarations"
 B11_FAMS = ["ids_mixed_none", "ids_mixed_always", "ids_mixed_shallow", "conflict_flat", "nest_inactive", "queue_flat", "queue_nested", "defer_basic", "defer_action", "completion_chain",
             "blocking", "flags", "storage", "fork_entry", "history_none", "history_always", "history_shallow", "serial_nested",
-            "fe_player", "fe_conflict", "exit_points_plain", "defer_queue_first"]
+            "fe_player", "fe_conflict", "exit_points_plain", "defer_queue_first", "root_history"]
 
 
 # back with queue_container_circular (capacity 256 set by the adapter, "sufficient" for every plan)
@@ -109,6 +110,8 @@ PROPS = {
                 + jobs(["nest2_mixed"], ["reentrant"], 300, 3000, variants=["B", "M"])
                 # the configuration must also be intact under the other active-state-switch policies (second seeded defect C03)
                 + jobs(["nest2_mixed", "conflict_ortho", "order_rows"], ["lifecycle"], 400, 20000, variants=POLV)
+                # a history policy on the root machine: restart begins in the initial states (third seeded defect C03)
+                + jobs(["root_history"], ["lifecycle", "queue"], 600, 20000, variants=ALLV)
                 + rand_jobs("struct", ["lifecycle"], 600, 8000) + rand_jobs("pseudo", ["lifecycle"], 0, 6000) + rand_jobs("hist", ["observe"], 0, 6000),
         "nontrivial": ["stopstart"],
         "rule": "histories of start / process_event / enqueue / stop with full introspection (active ids per level, is_state_active, "
@@ -164,14 +167,18 @@ PROPS = {
     "C08": {
         "jobs": jobs(["history_none", "history_always", "history_shallow", "ids_mixed_none", "ids_mixed_always", "ids_mixed_shallow", "hist_exit_pt"],
                      ["plain", "lifecycle", "posts"], 800, 40000, variants=ALLV)
-                + rand_jobs("hist", ["plain", "lifecycle"], 600, 8000) + rand_jobs("pseudo", ["lifecycle"], 0, 6000),
+                + rand_jobs("hist", ["plain", "lifecycle"], 600, 8000) + rand_jobs("pseudo", ["lifecycle"], 0, 6000)
+                # "the memory is private to each submachine object": the history memory of copies (third seeded defect C08)
+                + jobs(["history_shallow", "history_always", "ids_mixed_shallow"], ["fork"], 500, 20000, variants=ALLV),
         "nontrivial": ["reentry"],
         "rule": "enter / move / exit cycles of a 3-region sub-machine under the three history policies, entered normally, by direct entry "
                 "and by fork; history memory probed after every op; non-trivial = the sub-machine was re-entered at least once",
     },
     "C09": {
         "jobs": jobs(["fork_entry", "exit_points", "hist_exit_pt", "exit_points_plain"], ["plain", "posts", "lifecycle"], 1000, 50000, variants=ALLV)
-                + rand_jobs("pseudo", ["plain", "posts"], 600, 8000),
+                + rand_jobs("pseudo", ["plain", "posts"], 600, 8000)
+                # a sub-machine without message queue (back / back11 option no_message_queue), no re-entrant submissions (third seeded defect C09)
+                + jobs(["entry_pt_noqueue"], ["plain", "lifecycle"], 800, 30000),
         "nontrivial": ["nested"],
         "rule": "plans on machines with direct<>, fork, entry_pt<> and exit_pt<> rows incl. the exit points' event types sent from outside; "
                 "non-trivial = a dispatch crossed the sub-machine boundary",
